@@ -730,3 +730,100 @@ Proof.
 Qed.
 
 End FromNew.
+
+(* ------------------------------------------------------------------ witnesses *)
+(* the hypotheses are satisfiable: a total congestion controller, a valid configuration, an event
+   list within the clock bound, without path limit, with EMSGSIZE-free scripts *)
+Lemma fixed_cc_total w : cc_total (fixed_cc w).
+Proof. intros c now len rtt. discriminate. Qed.
+
+Definition p1_ops : list vop :=
+  [VoPoll []; VoWrite (repeat 0 (Z.to_nat 3000)); VoPoll []; VoSetNow 2000000;
+   VoDeliver {| m_hdr := {| ch_type := ST_STATE; ch_conn_id := 0; ch_ts := 10; ch_ts_diff := 0;
+                             ch_wnd := 1048576; ch_seq := 1; ch_ack := 101; ch_sack := None;
+                             ch_close_reason := None |}; m_payload := [] |};
+   VoPoll [TPending]; VoShutdown; VoPoll []].
+
+Example p1_hyps_satisfiable :
+  cc_total (fixed_cc 100000) /\
+  vconfig_ok {| vc_incoming := false; vc_ipv4 := true; vc_link_mtu := 1500; vc_rx_buf := 1048576;
+                vc_tx_init := 32768; vc_tx_max := 1048576; vc_nagle := true; vc_max_retx := 5;
+                vc_inactivity := 10000000000; vc_wait_last_ack := true; vc_mtu_probe_max_retx := 1;
+                vc_isn := 100; vc_remote_seq := 1; vc_remote_conn_id := 7; vc_remote_wnd := 1048576;
+                vc_remote_ts := 5; vc_syn_sent := 0; vc_now0 := 1000000 |} = true /\
+  Forall op_clock_ok p1_ops /\ Forall op_nolimit p1_ops /\ Forall op_script_legit p1_ops.
+Proof.
+  split; [apply fixed_cc_total|]. split; [vm_compute; reflexivity|].
+  split; [repeat constructor; unfold SAMPLE_BOUND, NS_PER_SEC; lia|].
+  split; repeat constructor.
+Qed.
+
+(* the restart loop is not vacuous: with a path limit of 1000 bytes the first MTU probe (991 bytes)
+   is answered EMSGSIZE, popped, and the iteration restarts once *)
+Fixpoint restarts {CC} (cci : cc_iface CC) (fuel : nat) (s : vsock CC) : nat :=
+  match fuel with
+  | O => O
+  | S f => match poll_body cci s with BrRestart s' => S (restarts cci f s') | _ => O end
+  end.
+
+Definition p1_cfg : vconfig :=
+  {| vc_incoming := false; vc_ipv4 := true; vc_link_mtu := 1500; vc_rx_buf := 1048576;
+     vc_tx_init := 32768; vc_tx_max := 1048576; vc_nagle := true; vc_max_retx := 5;
+     vc_inactivity := 10000000000; vc_wait_last_ack := true; vc_mtu_probe_max_retx := 1;
+     vc_isn := 100; vc_remote_seq := 1; vc_remote_conn_id := 7; vc_remote_wnd := 1048576;
+     vc_remote_ts := 5; vc_syn_sent := 0; vc_now0 := 1000000 |}.
+
+Definition last_state_of (w : Z) (cfg : vconfig) (ops : list vop) : option (vsock unit) :=
+  match vsock_new (fixed_cc w) (fun _ _ => tt) cfg with
+  | Some s0 => match rev (vtrace (fixed_cc w) s0 ops) with ob :: _ => Some (vo_state ob) | [] => None end
+  | None => None
+  end.
+
+Example restart_reachable :
+  match last_state_of 100000 p1_cfg [VoSetLimit (Some 1000); VoPoll []; VoWrite (repeat 0 (Z.to_nat 3000))] with
+  | Some s => restarts (fixed_cc 100000) 64 (set_arm_in (set_wakes (set_out (set_sends s []) []) []) None) = 1%nat
+  | None => False
+  end.
+Proof. vm_compute. reflexivity. Qed.
+
+(* REFUTED as asked ("every BrReturn state satisfies vs_inv"): after an error exit the bytes
+   acknowledged by the messages of this poll are still in the ring (they are truncated only after the
+   receive loop), so the state of a PollReadyErr satisfies vs_inv_p for some p > 0 (vs_xe), not vs_inv.
+   Witness: 100 bytes sent; an out-of-order ST_DATA acknowledges them and forces an immediate ACK;
+   the transport answers that ACK with an I/O error: PollReadyErr ErrSend with removed_offset = 100
+   and nothing truncated from the ring.  (The connection is dead after an error; only the statement
+   has to say vs_xe.) *)
+Lemma inv_ring_b {CC} ti tm (s : vsock CC) :
+  vs_inv ti tm s ->
+  (match v_state s with Closed => true | _ => g_removed (v_tx s) =? ss_removed (v_segs s) end) = true.
+Proof.
+  intros (_ & _ & _ & _ & (_ & _ & R2 & _) & _).
+  destruct (v_state s) eqn:E; try reflexivity; apply Z.eqb_eq;
+    (assert (Hc : v_state s <> Closed) by (rewrite E; discriminate)); specialize (R2 Hc); lia.
+Qed.
+
+Definition err_exit_ops : list vop :=
+  [VoPoll []; VoWrite (repeat 0 (Z.to_nat 100)); VoPoll [];
+   VoDeliver {| m_hdr := {| ch_type := ST_DATA; ch_conn_id := 0; ch_ts := 10; ch_ts_diff := 0;
+                             ch_wnd := 1048576; ch_seq := 3; ch_ack := 101; ch_sack := None;
+                             ch_close_reason := None |}; m_payload := repeat 0 10 |};
+   VoPoll [TIoErr]].
+
+Lemma err_exit_not_inv_refuted :
+  exists w cfg ops,
+    vconfig_ok cfg = true /\ Forall op_clock_ok ops /\
+    match last_state_of w cfg ops with
+    | Some s => forall ti tm, ~ vs_inv ti tm s
+    | None => False
+    end.
+Proof.
+  exists 100000, p1_cfg, err_exit_ops.
+  split; [vm_compute; reflexivity|]. split; [repeat constructor|].
+  assert (Hb : match last_state_of 100000 p1_cfg err_exit_ops with
+               | Some s => (match v_state s with Closed => true
+                            | _ => g_removed (v_tx s) =? ss_removed (v_segs s) end) = false
+               | None => False
+               end) by (vm_compute; reflexivity).
+  destruct (last_state_of 100000 p1_cfg err_exit_ops) as [s|]; [|exact Hb].
+  intros ti tm H. rewrite (inv_ring_b ti tm s H) in Hb. discriminate.
+Qed.
